@@ -31,14 +31,10 @@ Qed.
 
 Lemma merge_val_dict dv ud :
   merge_val dv (JDict ud) =
-  match (match dv with None => Some [] | Some (JDict dd) => Some dd | Some _ => None end) with
-  | None => None
-  | Some dd => match merge_items ud dd with Some r => Some (JDict r) | None => None end
-  end.
+  match merge_items ud (merge_base dv) with Some r => Some (JDict r) | None => None end.
 Proof.
-  cbn [merge_val].
-  destruct (match dv with None => Some [] | Some (JDict dd) => Some dd | Some _ => None end) as [dd|]; [|reflexivity].
-  revert dd. induction ud as [|[k v] rest IH]; intro acc; [reflexivity|].
+  cbn [merge_val]. generalize (merge_base dv) as acc.
+  induction ud as [|[k v] rest IH]; intro acc; [reflexivity|].
   cbn [merge_items]. destruct (merge_val (lookup k acc) v) as [nv|]; [apply IH|reflexivity].
 Qed.
 
@@ -139,10 +135,10 @@ Lemma firstn_keys_self (d : dict) : keys d = firstn (List.length d) (keys d).
 Proof. unfold keys. rewrite <- (map_length fst d). symmetry. apply firstn_all. Qed.
 
 Lemma merge_flat_self s : flat s = true -> merge_val (Some (JDict s)) (JDict s) = Some (JDict s).
-Proof. intro F. rewrite merge_val_dict. rewrite (merge_flat_over s s F (firstn_keys_self s)). reflexivity. Qed.
+Proof. intro F. rewrite merge_val_dict; cbn [merge_base]. rewrite (merge_flat_over s s F (firstn_keys_self s)). reflexivity. Qed.
 
 Lemma merge_flat_new s : flat s = true -> merge_val None (JDict s) = Some (JDict s).
-Proof. intro F. rewrite merge_val_dict. rewrite (merge_flat_over [] s F eq_refl). reflexivity. Qed.
+Proof. intro F. rewrite merge_val_dict; cbn [merge_base]. rewrite (merge_flat_over [] s F eq_refl). reflexivity. Qed.
 
 (* a dictionary of flat dictionaries (the steps of a pipeline), each name once *)
 Definition flat2 (d : dict) : bool :=
@@ -211,16 +207,16 @@ Proof.
   rewrite !andb_true_iff. intros [[[[[[[[[E1 E2] E3] E4] E5] E6] F1] F2] X1] X2].
   apply String.eqb_eq in E1, E2, E3, E4, E5, E6. subst.
   apply strs_eqb_eq in X1, X2.
-  unfold update_conf. rewrite merge_val_dict.
+  unfold update_conf. rewrite merge_val_dict; cbn [merge_base].
   assert (E : merge_items [("input", JDict [("left", JDict l); ("right", JDict r)])]
                           [("input", JDict [("left", JDict dl); ("right", JDict dr)])]
               = Some [("input", JDict [("left", JDict l); ("right", JDict r)])]).
-  { Opaque merge_val. cbn [merge_items lookup]. rewrite String.eqb_refl. rewrite merge_val_dict.
+  { Opaque merge_val. cbn [merge_items lookup]. rewrite String.eqb_refl. rewrite merge_val_dict; cbn [merge_base].
     cbn [merge_items lookup]. rewrite String.eqb_refl.
-    rewrite merge_val_dict. rewrite (merge_flat_over dl l F1 X1).
+    rewrite merge_val_dict; cbn [merge_base]. rewrite (merge_flat_over dl l F1 X1).
     cbn [set_key]. rewrite String.eqb_refl. cbn [lookup].
     change ("right" =? "left") with false. cbv iota. rewrite String.eqb_refl.
-    rewrite merge_val_dict. rewrite (merge_flat_over dr r F2 X2).
+    rewrite merge_val_dict; cbn [merge_base]. rewrite (merge_flat_over dr r F2 X2).
     cbn [set_key]. change ("right" =? "left") with false. cbv iota. rewrite String.eqb_refl.
     cbn [set_key]. rewrite String.eqb_refl. reflexivity. Transparent merge_val. }
   rewrite E. reflexivity.
@@ -402,7 +398,7 @@ Section Pipe.
     - rewrite K. apply firstn_keys_self.
     - intros k v Hin. destruct (I k v Hin) as [cfg [app [Ic Ev]]]. subst v.
       rewrite (lookup_in_nodup steps k (JDict cfg)); [|rewrite <- K; exact N|exact Ic].
-      rewrite merge_val_dict. specialize (F _ Hin). cbn in F.
+      rewrite merge_val_dict; cbn [merge_base]. specialize (F _ Hin). cbn in F.
       rewrite (merge_flat_over cfg (cfg ++ app) F (firstn_keys_app cfg app)). reflexivity.
   Qed.
 
@@ -446,8 +442,8 @@ Section Pipe.
     exists done.
     destruct (has_validation steps && negb _) eqn:V; [discriminate|].
     assert (U : update_conf cfg1 [("pipeline", JDict done)] = Some (set_key "pipeline" (JDict done) cfg1)).
-    { unfold update_conf. rewrite merge_val_dict. cbn [merge_items]. rewrite L.
-      rewrite merge_val_dict. rewrite (check_steps_merge im steps done C Cs F). reflexivity. }
+    { unfold update_conf. rewrite merge_val_dict; cbn [merge_base]. cbn [merge_items]. rewrite L.
+      rewrite merge_val_dict; cbn [merge_base]. rewrite (check_steps_merge im steps done C Cs F). reflexivity. }
     rewrite U in H. rewrite lookup_set_key_same in H. inversion H; subst out.
     split; [reflexivity|]. split; [exact F|]. split; [exact Fx|].
     intro Hv. rewrite (has_validation_keys done steps K) in Hv. rewrite Hv in V. cbn in V.
@@ -465,16 +461,16 @@ Section Pipe.
   Proof.
     intros F Fx Sw. unfold pipeline_check.
     assert (U1 : update_conf [("pipeline", JDict [])] [("pipeline", JDict done)] = Some [("pipeline", JDict done)]).
-    { unfold update_conf. rewrite merge_val_dict. cbn [merge_items lookup]. rewrite String.eqb_refl.
-      rewrite merge_val_dict. rewrite (merge_flat2_new done F). cbn [set_key]. rewrite String.eqb_refl. reflexivity. }
+    { unfold update_conf. rewrite merge_val_dict; cbn [merge_base]. cbn [merge_items lookup]. rewrite String.eqb_refl.
+      rewrite merge_val_dict; cbn [merge_base]. rewrite (merge_flat2_new done F). cbn [set_key]. rewrite String.eqb_refl. reflexivity. }
     rewrite U1. cbn [lookup]. rewrite String.eqb_refl. rewrite Fx.
     assert (V : has_validation done && negb (match Pipeline.check_steps classes interp (swap_images im) done with
                                              | Some _ => true | None => false end) = false).
     { destruct (has_validation done); [|reflexivity]. rewrite (Sw eq_refl). reflexivity. }
     rewrite V.
     assert (U2 : update_conf [("pipeline", JDict done)] [("pipeline", JDict done)] = Some [("pipeline", JDict done)]).
-    { unfold update_conf. rewrite merge_val_dict. cbn [merge_items lookup]. rewrite String.eqb_refl.
-      rewrite merge_val_dict. rewrite (merge_flat2_self done F). cbn [set_key]. rewrite String.eqb_refl. reflexivity. }
+    { unfold update_conf. rewrite merge_val_dict; cbn [merge_base]. cbn [merge_items lookup]. rewrite String.eqb_refl.
+      rewrite merge_val_dict; cbn [merge_base]. rewrite (merge_flat2_self done F). cbn [set_key]. rewrite String.eqb_refl. reflexivity. }
     rewrite U2. cbn [lookup]. rewrite String.eqb_refl. reflexivity.
   Qed.
 End Pipe.
